@@ -136,12 +136,19 @@ pub open spec fn var_is_arg(f: Formula, i: int) -> bool {
 
 /// C13: `f` defines, by a closed equivalence `forall X (p(X) <-> F)` over distinct variables X that are exactly the arguments of
 /// the atom, the predicate p, which is not among `taken`, and F mentions only predicates among `taken`
+pub open spec fn args_distinct_upto(ts: Seq<GeneralTerm>, n: int) -> bool {
+    forall|i: int, j: int| 0 <= i < j < n ==> #[trigger] term_var(ts[i]) != #[trigger] term_var(ts[j])
+}
+pub open spec fn args_distinct(ts: Seq<GeneralTerm>) -> bool { args_distinct_upto(ts, ts.len() as int) }
+
 pub open spec fn def_ok(f: Formula, taken: Seq<Predicate>, p: Predicate) -> bool {
     &&& is_def_shape(f)
     &&& p.symbol@ == def_atom(f).predicate_symbol@ && p.arity == def_atom(f).terms@.len()
     &&& forall|i: int, j: int| 0 <= i < j < def_vars(f).len() ==> #[trigger] vkey(def_vars(f)[i]) != #[trigger] vkey(def_vars(f)[j])
     &&& forall|i: int| 0 <= i < def_atom(f).terms@.len() ==> (#[trigger] term_var(def_atom(f).terms@[i])) is Some && def_vars(f).contains(term_var(def_atom(f).terms@[i])->Some_0)
     &&& forall|i: int| 0 <= i < def_vars(f).len() ==> #[trigger] var_is_arg(f, i)
+    // the arguments of the defined atom are pairwise distinct variables
+    &&& args_distinct(def_atom(f).terms@)
     &&& !has_pred(taken, p.symbol@, p.arity as nat)
     &&& forall|k: VKey| #[trigger] fv(def_rhs(f), k) ==> bound_by(def_vars(f), k)
     &&& forall|n: Seq<char>, k: nat| #[trigger] pred_in(def_rhs(f), n, k) ==> has_pred(taken, n, k)
@@ -246,6 +253,7 @@ pub proof fn lemma_def_ok(f: Formula, taken: Seq<Predicate>, p: Predicate, uniqu
         forall|i: int| 0 <= i < def_atom(f).terms@.len() ==> (#[trigger] term_var(def_atom(f).terms@[i])) is Some && tvs.contains(term_var(def_atom(f).terms@[i])->Some_0),
         forall|x: Variable| tvs.contains(x) ==> exists|j: int| 0 <= j < def_atom(f).terms@.len() && #[trigger] term_var(def_atom(f).terms@[j]) == Some(x),
         same_elements(uniques, tvs),
+        args_distinct(def_atom(f).terms@),
         !taken.contains(p),
         forall|x: Variable| spec_fv(def_rhs(f)).contains(x) ==> uniques.contains(x),
         forall|q: Predicate| spec_preds(def_rhs(f)).contains(q) ==> taken.contains(q),
